@@ -445,7 +445,7 @@ def calc_n_cyc_array_w_power_law(values, a_ref, b, cut_off=0.01):
     from scipy.interpolate import interp1d
     peak_indices = eqsig.fns.peaks_and_crossings.get_switched_peak_array_indices(values)
     csr_peaks = np.abs(np.take(values, peak_indices))
-    below_cut_off = csr_peaks < cut_off * np.max(abs(values))
+    below_cut_off = csr_peaks < cut_off * np.max(np.abs(values))
     csr_peaks = np.where(below_cut_off, 1.0e-14, csr_peaks)
     n_ref = 1
     perc = 0.5 / (n_ref * (a_ref / csr_peaks)[:, np.newaxis] ** (1 / b))
